@@ -86,7 +86,7 @@ cfg("C10", assumptions=[ILAWS, "T0 json model (key order / whitespace insensitiv
 cfg("C11", assumptions=[A_ENT, A_TERM],
     not_decided=["'at most two expected draws' is an expectation; proved: the acceptance set has density >= 1/2 (topbits clause) and exact uniformity follows from the counting lemma (Lean block_count)"],
     extra=extra(lean_theorems("block_count", "head_count")))
-cfg("C12", assumptions=["M-prime(Q) discharged by Pratt certificate; the Lean theorems are stated under [Fact (Nat.Prime Q)]"],
+cfg("C12", assumptions=["the Lean theorems are stated under [Fact (Nat.Prime Q)]; Nat.Prime Q and Nat.Prime L are themselves Lean theorems (Primes text generated from the Pratt certificates) and are also checked by the Python certificate checker"],
     extra=extra(lambda: [o for o in ground.primality()[0] if "Q is prime" in o["name"] or "L is prime" in o["name"] or o["backend"] == "lean"]))
 cfg("C13", assumptions=[VALID_GROUP, "group axioms themselves (associativity, commutativity, distributivity) are facts about the spec operations: Lean Algebra.lean for integer groups; Lean EdwardsGroup.lean (eadd_assoc, Curve.instAddCommGroup) for Ed25519"],
     extra=extra(lean_theorems("smul_add", "smul_mul", "smul_mul_distrib", "smul_zero", "smul_one", "mul_add'", "mul_distrib'", "mul_mul", "insub_add", "insub_mul")))
